@@ -38,6 +38,13 @@ BASES = [
     (["ensemble", {"aggfunc": "mean"}, [["naive", {"strategy": "last"}], ["poly", {"degree": 1}], ["naive", {"strategy": "drift"}]]],
      {"aggfunc": ["mean", "median", "min", "max"]}),
     (["reduce", {"strategy": "recursive", "window_length": 3, "reg": "lin"}], {"window_length": [2, 3, 4]}),
+    # whole components as candidate values: two named steps of a pipeline / two members of an ensemble are exchanged by one candidate
+    (["pipeline", {}, [["detrend", {"degree": 1}]], ["naive", {"strategy": "last"}]],
+     lambda: {"t0": [zoo.build_transformer(["detrend", {"degree": 2}]), zoo.build_transformer(["deseason", {"sp": 2, "model": "additive"}])],
+              "forecaster": [zoo.build(["naive", {"strategy": "drift"}]), zoo.build(["poly", {"degree": 1}]), zoo.build(["naive", {"strategy": "mean", "window_length": 4}])]}),
+    (["ensemble", {"aggfunc": "mean"}, [["naive", {"strategy": "last"}], ["poly", {"degree": 1}], ["naive", {"strategy": "drift"}]]],
+     lambda: {"m0": [zoo.build(["naive", {"strategy": "mean", "window_length": 3}]), zoo.build(["poly", {"degree": 2}])],
+              "m2": [zoo.build(["poly", {"degree": 0}]), zoo.build(["naive", {"strategy": "last", "sp": 2}])], "aggfunc": ["mean", "max"]}),
 ]
 METRICS = [None, "mape", "mse", "asym_fn", "neg_mae", "neg_asym", "mae", "rmspe", "mdspe", "rmdspe_sym", "mdae", "rmse"]
 
@@ -68,6 +75,34 @@ def _build(spec, lid):
     return zoo.build(spec)
 
 
+def _candidate(spec, lid, params):
+    """the candidate a parameter set describes, built without the composite's own replace-by-name logic: whole components among the values are
+    exchanged in the component list by hand and the composite is made by its constructor; plain values go through set_params"""
+    from sklearn.base import clone
+    est = clone(_build(spec, lid))
+    whole = {k: v for k, v in params.items() if hasattr(v, "get_params") and "__" not in k}
+    rest = {k: v for k, v in params.items() if k not in whole}
+    if whole:
+        attr = "steps" if hasattr(est, "steps") else "forecasters"
+        kw = est.get_params(deep=False)
+        kw[attr] = [(n, clone(whole[n]) if n in whole else c) for n, c in getattr(est, attr)]
+        est = type(est)(**kw)
+    return est.set_params(**rest) if rest else est
+
+
+def _same_params(a, b):
+    """parameter sets are equal; component-valued entries (which may have travelled through a worker process) by class and configuration"""
+    if not isinstance(a, dict) or not isinstance(b, dict) or set(a) != set(b):
+        return False
+    for k in a:
+        if hasattr(a[k], "get_params") or hasattr(b[k], "get_params"):
+            if type(a[k]) is not type(b[k]) or repr(a[k].get_params()) != repr(b[k].get_params()):
+                return False
+        elif a[k] != b[k]:
+            return False
+    return True
+
+
 def _eq(a, b, tol=1e-9):
     return abs(float(a) - float(b)) <= tol * max(1.0, abs(float(a)), abs(float(b)))
 
@@ -82,6 +117,8 @@ def run_case(case, ctx):
     import sktime.performance_metrics.forecasting as M
 
     spec, grid = BASES[case["base"]]
+    if callable(grid):
+        grid = grid()
     lid = spies.new_log()
     try:
         rng = np.random.default_rng([case["dseed"], 88])
@@ -127,9 +164,9 @@ def run_case(case, ctx):
         lid2 = spies.new_log()
         try:
             for i, params in enumerate(candidates):
-                ctx.check("rows", res["params"].iloc[i] == params, "tune:params-order", "row %d holds another parameter set" % i,
+                ctx.check("rows", _same_params(res["params"].iloc[i], params), "tune:params-order", "row %d holds another parameter set" % i,
                           got=res["params"].iloc[i], expected=params)
-                cand = clone(_build(spec, lid2)).set_params(**params)
+                cand = _candidate(spec, lid2, params)
                 ev = evaluate(cand, zoo.build_cv(case["cv"]), y.copy(), None if X is None else X.copy(), strategy=strategy, scoring=metric)
                 ref = float(ev["test_" + metric.name].mean())
                 ref_scores.append(ref)
@@ -146,7 +183,7 @@ def run_case(case, ctx):
                         y_tr, y_te = y.iloc[tr], y.iloc[te]
                         fha = ForecastingHorizon(y_te.index, is_relative=False)
                         if k == 0 or strategy == "refit":
-                            g = clone(_build(spec, lid2)).set_params(**params)
+                            g = _candidate(spec, lid2, params)
                             g.fit(y_tr.copy(), None if X is None else X.iloc[tr].copy(), fh=fha)
                         else:
                             g.update(y_tr.copy(), None if X is None else X.iloc[tr].copy())
@@ -171,7 +208,7 @@ def run_case(case, ctx):
         ctx.check("best.direction", 0 <= bi < len(scores) and _eq(scores[bi], best_val), "tune:best-not-best-in-declared-direction:%s" % ("greater-is-better" if gib else "lower-is-better"),
                   "best_index_ is not a candidate with the best mean score in the metric's direction", best_index=bi, scores=scores, greater_is_better=gib)
         if 0 <= bi < len(scores):
-            ctx.check("best.bookkeeping", tuner.best_params_ == candidates[bi] and _eq(tuner.best_score_, scores[bi]), "tune:best_params-or-score-not-of-best_index",
+            ctx.check("best.bookkeeping", _same_params(tuner.best_params_, candidates[bi]) and _eq(tuner.best_score_, scores[bi]), "tune:best_params-or-score-not-of-best_index",
                       "best_params_/best_score_ do not belong to best_index_", best_params=tuner.best_params_, row_params=candidates[bi],
                       best_score=float(tuner.best_score_), row_score=scores[bi])
         rank_col = "rank_test_" + metric.name
@@ -197,7 +234,7 @@ def run_case(case, ctx):
             ctx.seen("same-splits", 0)
         # ---- refit / delegation -------------------------------------------------------------------------
         if case["refit"]:
-            direct = _build(spec, spies.new_log()).set_params(**tuner.best_params_)
+            direct = _candidate(spec, spies.new_log(), tuner.best_params_)
             direct.fit(y.copy(), None if X is None else X.copy(), fh=fh)
             ok1, p1 = ctx.call("tune:predict-exception", tuner.predict, fh)
             p2 = direct.predict(fh)
